@@ -65,7 +65,7 @@ func VerifHostileSizes() (to, from uint64) {
 // a log whose validly signed checkpoint has a hostile size and a root hash of arbitrary length.
 func VerifFeedHostile() {
 	origin, key := rt.Str("origin"), rt.U64("logkey")
-	l := config.Log{ID: rt.Str("id"), Origin: origin, Verifier: &rt.Verifier{K: key, N: origin}, URL: "https://sum.example"}
+	l := config.Log{ID: rt.Str("id"), Origin: origin, Verifier: &rt.Verifier{K: key, N: rt.UFStr("keyName", key)}, URL: "https://sum.example"}
 	w := &hostileWitness{latest: rt.Bytes("latestRaw")}
 	to, from := VerifHostileSizes()
 	rt.Name("to.size", to)
